@@ -73,3 +73,25 @@ package http1
 //@   loop 0:
 //@     invariant pendingDelta == 1 && 0 <= sends
 //@     invariant sends <= 0 || reqIdempotent || !isDefaultRetryFunc
+
+// ---- C10 (sequential slice): every acquired connection is disposed of exactly once ----
+// disp: 0 = none acquired, 1 = held by this call, 2 = closed, 3 = released to the pool, 4 = handed to
+// the upgrade wrapper. handed: a stream-close callback that will dispose of the connection exists.
+//@ ghost var disp int
+//@ ghost var handed bool
+
+//@ func HostClient.doNonNilReqResp(c, req, resp) retry, err
+//@   props C10
+//@   abstract
+//@   noinline
+//@   panics
+//@   requires disp == 0 && !handed
+//@   ghostset after acquireConn: disp = ite(result2 == nil, 1, 0)
+//@   assert before closeConn: disp == 1
+//@   ghostset after closeConn: disp = 2
+//@   assert before releaseConn: disp == 1 && err == nil && !shouldCloseConn
+//@   ghostset after releaseConn: disp = 3
+//@   assert before newUpgradeConn: disp == 1
+//@   ghostset after newUpgradeConn: disp = 4
+//@   ghostset after ReadRespBodyStream: handed = true
+//@   top-ensures disp != 1 || handed
